@@ -16,12 +16,12 @@ CLAIMS = {
         "technique": T_PROOF + "; leaf obligations case-split on the exponent gap",
     },
     "C03": {
-        "text": "Proved for all operand word patterns: each of the ten +/- operator and compound-assignment bodies is bit-identical to the published algorithm (Alg. 4 DWPlusFP / Alg. 6 AccurateDWPlusDW of Joldes-Muller-Popescu 2017) composed of the contracted leaves; proved: an exactly-zero sum yields (0,0) in all eight spellings; the leaves are error-free transformations (C02, all inputs). The 2u^2 and 3u^2+13u^3 bounds then follow from the published theorem for these algorithms (assumed lemma; Coq-formalised by Muller-Rideau 2022). Native replay of any counterexample judges the stated bound itself in exact arithmetic. Iterator::sum == left fold: not decided (CBMC fails on the iterator fold).",
+        "text": "Proved for all operand word patterns: each of the ten +/- operator and compound-assignment bodies is bit-identical to the published algorithm (Alg. 4 DWPlusFP / Alg. 6 AccurateDWPlusDW of Joldes-Muller-Popescu 2017) composed of the contracted leaves; proved: an exactly-zero sum yields (0,0) in all eight spellings; the leaves are error-free transformations (C02, all inputs). The 2u^2 and 3u^2+13u^3 bounds then follow from the published theorem for these algorithms (assumed lemma; Coq-formalised by Muller-Rideau 2022). Native replay of any counterexample judges the stated bound itself in exact arithmetic. Iterator::sum == left fold: not decided (CBMC fails on the iterator fold). Thorough tier: the 2u^2 bound of Algorithm 4 is mechanised per exponent gap with ghost values (seed-rotated subset per run; a full sweep of all 123 cases of the x + y variant was discharged, DESIGN 14.9).",
         "note": TB + "Assumed lemma: error bounds of Alg. 4 / Alg. 6 (published + Coq). A failing miter is reported as a violation of the named obligation; when the solver's model does not violate the bound natively the line ends with no-failing-input-found.",
         "technique": T_MITER,
     },
     "C04": {
-        "text": "Proved for all operand word patterns: the five * bodies are bit-identical to Alg. 9 (DWTimesFP3) / Alg. 12 (DWTimesDW3) over new_mul, fast_two_sum and the fma primitive; proved for valid in-range operands: zero factor => (0,0), x*(+-1) == +-x in every spelling, x*2^k exact when lo*2^k does not underflow; results valid (C01). The 2u^2 / 5u^2 bounds follow from the published theorems (assumed lemma) given that new_mul is an exact 2Prod (proved: hi == RN(ab) and hi + lo == ab exactly, all inputs of the domain). Model-agreement obligation: corrected fma model == hardware fma on 240 seeded triples.",
+        "text": "Proved for all operand word patterns: the five * bodies are bit-identical to Alg. 9 (DWTimesFP3) / Alg. 12 (DWTimesDW3) over new_mul, fast_two_sum and the fma primitive; proved for valid in-range operands: zero factor => (0,0), x*(+-1) == +-x in every spelling, x*2^k exact when lo*2^k does not underflow; results valid (C01). The 2u^2 / 5u^2 bounds follow from the published theorems (assumed lemma) given that new_mul is an exact 2Prod (proved: hi == RN(ab) and hi + lo == ab exactly, all inputs of the domain). Model-agreement obligation: corrected fma model == hardware fma on 240 seeded triples. Thorough tier: the 2u^2 bound of Algorithm 9 (TwoFloat * f64) is mechanised per gap between the exponent fields of the multiplicand's words (ghost values, exact 53 x 53 product of xl * y; a seed-rotated subset per run, the evidence lists the gaps discharged).",
         "note": TB + "Assumed lemmas: error bounds of Alg. 9 / Alg. 12. CBMC's fma is wrong for an exact-zero factor with a large-exponent cofactor (found here, reproduced standalone); value obligations install a corrected model, miters are insensitive to the model.",
         "technique": T_MITER,
     },
